@@ -66,11 +66,11 @@ Qed.
 (* ------------------------------------------------------------------ SymbolKindTable.set on one dict *)
 
 Lemma tbl_set_cases : forall nm t x k,
-  (alookup t x = None /\ tbl_set nm t x k = (t ++ [(x, k)], nm, false)) \/
+  (alookup t x = None /\ tbl_set nm t x k = (t ++ [(x, k)], nm, None)) \/
   (exists old, alookup t x = Some old /\
-     ((tbl_set nm t x k = (t, false, false) /\ (old = k \/ unify k old = Ok old)) \/
-      (tbl_set nm t x k = (t, false, true) /\ exists e, unify k old = Err e) \/
-      (exists k', tbl_set nm t x k = (tupdate t x k', true, false) /\ unify k old = Ok k' /\ k' <> old))).
+     ((tbl_set nm t x k = (t, false, None) /\ (old = k \/ unify k old = Ok old)) \/
+      (exists e, tbl_set nm t x k = (t, false, Some e) /\ unify k old = Err e) \/
+      (exists k', tbl_set nm t x k = (tupdate t x k', true, None) /\ unify k old = Ok k' /\ k' <> old))).
 Proof.
   intros nm t x k. unfold tbl_set. destruct (alookup t x) as [old|] eqn:E; [right|left; auto].
   exists old. split; [reflexivity|].
@@ -81,7 +81,7 @@ Proof.
       * apply okind_eqb_eq in E2. subst k'. left. auto.
       * right. right. exists k'. repeat split; auto. intros ->.
         assert (okind_eqb old old = true) by (apply okind_eqb_eq; reflexivity). congruence.
-    + right. left. split; [reflexivity|]. eauto.
+    + right. left. exists e. split; reflexivity.
 Qed.
 
 Definition tbl_all_some (t : tbl) : Prop := forall y ko, alookup t y = Some ko -> ko <> None.
@@ -99,11 +99,11 @@ Lemma tbl_set_props : forall nm t x k t' ch cf,
   (forall y, alookup t' y <> None -> y = x \/ alookup t y <> None) /\
   (tbl_all_some t -> k <> None -> tbl_all_some t') /\
   (nm = true -> ch = false -> t' = t) /\
-  (nm = true -> ch = false -> cf = false ->
+  (nm = true -> ch = false -> cf = None ->
      exists old, alookup t x = Some old /\ (old = k \/ unify k old = Ok old)).
 Proof.
   intros nm t x k t' ch cf H.
-  destruct (tbl_set_cases nm t x k) as [[Hn E] | [old [Ho [[E Hm] | [[E He] | [k' [E [Hu Hne]]]]]]]];
+  destruct (tbl_set_cases nm t x k) as [[Hn E] | [old [Ho [[E Hm] | [[e [E He]] | [k' [E [Hu Hne]]]]]]]];
     rewrite E in H; inversion H; subst; clear H.
   - repeat split.
     + intros y Hy. rewrite alookup_app_last. destruct (alookup t y); [discriminate | contradiction].
@@ -152,8 +152,8 @@ Definition all_some (T : skt) : Prop :=
 
 Definition same_content (T T' : skt) : Prop := sg T = sg T' /\ sp T = sp T'.
 
-Lemma local_of_pupdate : forall T ph t p g ch cf,
-  local_of (mkSkt g (pupdate (sp T) ph t) ch cf) p = if String.eqb ph p then t else local_of T p.
+Lemma local_of_pupdate : forall T ph t p g ch cf ex,
+  local_of (mkSkt g (pupdate (sp T) ph t) ch cf ex) p = if String.eqb ph p then t else local_of T p.
 Proof.
   intros. unfold local_of. simpl. rewrite alookup_pupdate. destruct (String.eqb ph p); reflexivity.
 Qed.
@@ -233,6 +233,20 @@ Section TSet.
     - destruct (tbl_set (new_marks C) (local_of T ph) x k) as [[t' ch] cf]. simpl. lia.
   Qed.
 
+  (* the recorded exception and the message counter go together *)
+  Lemma tset_exn_conf : forall T ph x k,
+    (sexn T = None <-> sconf T = 0) ->
+    (sexn (tset C T ph x k) = None <-> sconf (tset C T ph x k) = 0).
+  Proof.
+    intros T ph x k H. unfold tset. destruct (is_state C x).
+    - destruct (tbl_set (new_marks C) (sg T) x k) as [[t' ch] cf]. simpl.
+      destruct (sexn T), cf; simpl in *; split; intros H1; try discriminate; try lia;
+        try (destruct H as [H H']; try (specialize (H eq_refl)); try (assert (sconf T = 0) by lia); auto; lia).
+    - destruct (tbl_set (new_marks C) (local_of T ph) x k) as [[t' ch] cf]. simpl.
+      destruct (sexn T), cf; simpl in *; split; intros H1; try discriminate; try lia;
+        try (destruct H as [H H']; try (specialize (H eq_refl)); try (assert (sconf T = 0) by lia); auto; lia).
+  Qed.
+
   (* with the repaired `set`: if the change flag is still down afterwards, nothing was modified *)
   Lemma tset_unchanged : forall T ph x k,
     new_marks C = true -> schanged (tset C T ph x k) = false ->
@@ -245,7 +259,7 @@ Section TSet.
       apply orb_false_elim in Hch. destruct Hch as [Hc1 Hc2]. subst ch.
       destruct (tbl_set_props _ _ _ _ _ _ _ E) as [_ [_ [_ [_ [Hsame Hold]]]]].
       rewrite (Hsame Hnm eq_refl). repeat split; auto.
-      intros Hcf. apply Hold; auto. destruct cf; [lia | reflexivity].
+      intros Hcf. apply Hold; auto. destruct cf; [simpl in Hcf; lia | reflexivity].
     - destruct (tbl_set (new_marks C) (local_of T ph) x k) as [[t' ch] cf] eqn:E. simpl in *.
       apply orb_false_elim in Hch. destruct Hch as [Hc1 Hc2]. subst ch.
       destruct (tbl_set_props _ _ _ _ _ _ _ E) as [_ [_ [_ [_ [Hsame Hold]]]]].
@@ -258,6 +272,6 @@ Section TSet.
       { unfold local_of in *. destruct (alookup (sp T) ph); [reflexivity | discriminate]. }
       split; [|split; [assumption|]].
       + split; simpl; [reflexivity|]. symmetry. apply pupdate_same. assumption.
-      + intros Hcf. apply Hold; auto. destruct cf; [lia | reflexivity].
+      + intros Hcf. apply Hold; auto. destruct cf; [simpl in Hcf; lia | reflexivity].
   Qed.
 End TSet.
